@@ -771,6 +771,7 @@ class Threads(EngineBase):
                     if ys:
                         tgt = ys[op["i"] % len(ys)]
                         rec["target_pid"] = tgt.pid
+                        rec["target"] = tgt
                         rec["out"] = ("value", tgt.is_running())
                     else:
                         rec["out"] = ("value", None)
@@ -954,17 +955,49 @@ class Threads(EngineBase):
             # objects that is_running() declares recycled now must be
             # replaced: the next iteration may skip the PID (KF-C04-1), the
             # one after must not yield the old object any more
+            # "found recycled by is_running()": some is_running() call on
+            # the object returned False after an identity read (open + read
+            # of /proc/<pid>/stat) that saw another incarnation than the one
+            # the object was made for from beginning to end.  A call that
+            # only learnt "gone" (ESRCH on a file opened before the exit)
+            # does not count: the statement promises nothing for it
+            allrecs = [r_ for recs in records for r_ in recs]
+            warm = self._shared.get("warm", {})
+
+            def found_recycled(o, accs):
+                w = warm.get(o.pid)
+                if w is None or w[0] is not o:
+                    return False
+                seen = [a_[6] for a_ in accs if a_[3] in ("open", "read")
+                        and a_[4] == "/proc/%d/stat" % o.pid]
+                return len(seen) >= 2 and all(
+                    x is not None and x != w[1] for x in seen)
+
             stale = []
             for o in list(b.values()):
                 acc0 = len(k.acclog)
                 r = o.is_running()
                 cur = k.procs.get(o.pid)
-                if r is False and cur is not None:
+                if r is not False or cur is None:
+                    continue
+                if found_recycled(o, k.acclog[acc0:]):
                     stale.append(o)
+                    continue
+                for r_ in allrecs:
+                    if r_["op"]["op"] == "is_running_y" and \
+                            r_.get("target") is o and \
+                            r_.get("out") == ("value", False) and \
+                            found_recycled(o, [
+                                a_ for a_ in k.acclog if a_[0] == r_["t"]
+                                and a_[1] == 1000 * (r_["t"] + 1) + r_["j"]]):
+                        stale.append(o)
+                        break
+                else:
+                    probes["gone_not_recycled_not_judged"] = probes.get(
+                        "gone_not_recycled_not_judged", 0) + 1
             if stale:
                 list(psutil.process_iter())
                 c = list(psutil.process_iter())
-                allrecs = [r_ for recs in records for r_ in recs]
                 iters = [r_ for r_ in allrecs if r_["op"]["op"] == "iter"
                          and "nacc_end" in r_]
                 for o in stale:
